@@ -1055,3 +1055,221 @@ def search_C08(rng, deadline, broken):
 def replay_C08(fi):
     return _c08_one(fi["latitude"], fi["longitude"], datetime.datetime.fromisoformat(fi["utc"]),
                     _zone_from_descr(fi["zone"])) is None
+
+
+# ------------------------------------------------------------------ C11
+def search_C11(rng, deadline, broken):
+    import astral.moon as moon
+    from oracle import moon_almanac as M
+    fromord = datetime.date.fromordinal
+    prev = None
+    # exhaustive: range and daily advance for every date
+    for o in range(1, 3652060):
+        try:
+            p = moon.phase(fromord(o))
+        except Exception as exc:  # noqa: BLE001
+            return {"clause": "phase raised %r" % (exc,), "date": str(fromord(o))}
+        if not (type(p) is float and 0.0 <= p < 28.0):
+            return {"clause": "phase %r outside [0, 28)" % (p,), "date": str(fromord(o))}
+        if prev is not None:
+            adv = (p - prev) % 28.0
+            if not (0.7 <= adv <= 1.3):
+                return {"clause": "daily advance %.4f (mod 28) outside [0.7, 1.3]" % adv,
+                        "date": str(fromord(o)), "previous": prev, "phase": p}
+        prev = p
+        if o % 200000 == 0 and time.time() > deadline + 600:
+            break
+    # agreement with an independent elongation, 1900-2100
+    d = datetime.date(1900, 1, 1)
+    while d <= datetime.date(2100, 12, 31):
+        dt = datetime.datetime(d.year, d.month, d.day, tzinfo=datetime.timezone.utc)
+        want = (M.elongation(dt) / 360.0 * 28.0 + 0.5) % 28.0
+        got = moon.phase(d)
+        diff = abs((got - want + 14.0) % 28.0 - 14.0)
+        if diff > 0.25:
+            return {"clause": "phase %.4f vs 28/360·elongation + 0.5 = %.4f (circular diff %.3f > 0.25)" % (
+                got, want, diff), "date": str(d)}
+        d += datetime.timedelta(days=1)
+    return None
+
+
+def replay_C11(fi):
+    import astral.moon as moon
+    d = datetime.date.fromisoformat(fi["date"])
+    p = moon.phase(d)
+    if not (0.0 <= p < 28.0):
+        return False
+    if d.toordinal() > 1:
+        adv = (p - moon.phase(d - datetime.timedelta(days=1))) % 28.0
+        return 0.7 <= adv <= 1.3
+    return True
+
+
+# ------------------------------------------------------------------ C12
+def _c12_one(lat, lon, naive_utc, z):
+    import astral.moon as moon
+    from astral import Observer
+    from oracle import moon_almanac as M
+    o = Observer(lat, lon)
+    u = naive_utc.replace(tzinfo=datetime.timezone.utc)
+    loc = u.astimezone(z.tzinfo)
+    az, el, ze = moon.azimuth(o, naive_utc), moon.elevation(o, naive_utc), moon.zenith(o, naive_utc)
+    if not (type(az) is float and 0.0 <= az < 360.0):
+        return "azimuth %r outside [0, 360)" % (az,)
+    if not (-90.0 <= el <= 90.0):
+        return "elevation %r outside [-90, 90]" % (el,)
+    if abs(ze - (90.0 - el)) > 1e-9:
+        return "zenith %r is not 90 - elevation %r" % (ze, el)
+    for name, f, ref in (("azimuth", moon.azimuth, az), ("elevation", moon.elevation, el)):
+        for spelled in (u, loc):
+            v = f(o, spelled)
+            dv = abs(v - ref)
+            if name == "azimuth":
+                dv = min(dv, 360.0 - dv)
+            if dv > 1e-6:
+                return "%s %r for %s differs from %r for the same instant as naive UTC" % (
+                    name, v, spelled.isoformat(), ref)
+    alt, aaz = M.alt_az(lat, lon, u)
+    # geocentric low-precision oracle: parallax (≤ 1°) + 0.3° series error → sanity bound 1.6°
+    if abs(alt - el) > 1.6:
+        return "elevation %.3f vs independent lunar formulae %.3f" % (el, alt)
+    return None
+
+
+def search_C12(rng, deadline, broken):
+    import gens
+    import zones
+    while time.time() < deadline:
+        lat, lon = gens.rand_lat(rng), gens.rand_lon(rng)
+        naive = datetime.datetime.fromordinal(rng.randint(gens.D1900, gens.D2100)) + \
+            datetime.timedelta(seconds=rng.randint(0, 86399))
+        z = zones.rand_zone(rng, naive.date())
+        try:
+            r = _c12_one(lat, lon, naive, z)
+        except Exception as exc:  # noqa: BLE001
+            r = "raised %r" % (exc,)
+        if r:
+            return {"clause": r, "latitude": lat, "longitude": lon, "utc": naive.isoformat(),
+                    "zone": z.describe()}
+    return None
+
+
+def replay_C12(fi):
+    return _c12_one(fi["latitude"], fi["longitude"], datetime.datetime.fromisoformat(fi["utc"]),
+                    _zone_from_descr(fi["zone"])) is None
+
+
+# ------------------------------------------------------------------ C13 / C14
+def _moon_target(dist=60.3):
+    return -(1896.0 / 3600.0) + 41.685 / dist      # ≈ +0.16°: altitude of the centre at rise/set
+
+
+def _c13_one(lat, lon, d, z, which):
+    import astral.moon as moon
+    from astral import Observer
+    o = Observer(lat, lon)
+    try:
+        t = getattr(moon, which)(o, d, z.tzinfo)
+    except ValueError:
+        return None
+    if t is None:
+        return None
+    el = moon.elevation(o, t)
+    if abs(el - 0.16) > 0.45 + 0.05:
+        return "%s at %s: the library's own lunar position has the moon at %.3f deg (rise/set altitude ≈ +0.16)" % (
+            which, t.isoformat(), el)
+    a = moon.elevation(o, t - datetime.timedelta(minutes=5))
+    b = moon.elevation(o, t + datetime.timedelta(minutes=5))
+    if abs(b - a) > 0.1:
+        if which == "moonrise" and b < a:
+            return "moonrise at %s but the moon is descending (%.3f -> %.3f)" % (t.isoformat(), a, b)
+        if which == "moonset" and b > a:
+            return "moonset at %s but the moon is climbing (%.3f -> %.3f)" % (t.isoformat(), a, b)
+    return None
+
+
+def search_C13(rng, deadline, broken):
+    import gens
+    import zones
+    while time.time() < deadline:
+        lat, lon = rng.uniform(-70, 70), gens.rand_lon(rng)
+        d = gens.rand_date(rng, wide=False)
+        z = zones.rand_zone(rng, d)
+        which = rng.choice(["moonrise", "moonset"])
+        try:
+            r = _c13_one(lat, lon, d, z, which)
+        except Exception as exc:  # noqa: BLE001
+            r = "raised %r" % (exc,)
+        if r:
+            return {"clause": r, "latitude": lat, "longitude": lon, "date": d.isoformat(),
+                    "zone": z.describe(), "which": which}
+    return None
+
+
+def replay_C13(fi):
+    return _c13_one(fi["latitude"], fi["longitude"], datetime.date.fromisoformat(fi["date"]),
+                    _zone_from_descr(fi["zone"]), fi["which"]) is None
+
+
+def _c14_one(lat, lon, d, z, which):
+    import astral.moon as moon
+    from astral import Observer
+    o = Observer(lat, lon)
+    tz = z.tzinfo
+    rising = which == "moonrise"
+    try:
+        got = getattr(moon, which)(o, d, tz)
+        outcome = "none" if got is None else "time"
+    except ValueError as exc:
+        if not str(exc).startswith("Moon never"):
+            return "%s raised ValueError(%r), not one of the documented outcomes" % (which, str(exc))
+        got, outcome = None, "never"
+    except Exception as exc:  # noqa: BLE001
+        return "%s raised %r; only None or ValueError('Moon never …') are documented" % (which, exc)
+    if got is not None and got.astimezone(tz).date() != d:
+        return "%s returned %s, not on the requested date" % (which, got.isoformat())
+    # brute force: the library's own elevation at 1-minute steps over the local date
+    start = datetime.datetime(d.year, d.month, d.day, tzinfo=tz).astimezone(datetime.timezone.utc)
+    target = 0.16
+    prev = moon.elevation(o, start) - target
+    real = []
+    for k in range(1, 1441):
+        t = start + datetime.timedelta(minutes=k)
+        cur = moon.elevation(o, t) - target
+        if (prev < 0 <= cur) if rising else (prev > 0 >= cur):
+            real.append(t)
+        prev = cur
+    good = [t for t in real
+            if datetime.timedelta(minutes=12) <= t - start <= datetime.timedelta(minutes=1428)
+            and min(t.hour * 60 + t.minute, 1440 - (t.hour * 60 + t.minute)) >= 5]
+    if good:
+        if got is None:
+            return "%s: a real event at %s on the requested date was not found (outcome %s)" % (
+                which, good[0].astimezone(tz).isoformat(), outcome)
+        if min(abs((got - t).total_seconds()) for t in real) > 8 * 60 + 60:
+            return "%s returned %s, more than 8 minutes from the real event %s" % (
+                which, got.isoformat(), good[0].astimezone(tz).isoformat())
+    return None
+
+
+def search_C14(rng, deadline, broken):
+    import gens
+    import zones
+    while time.time() < deadline:
+        lat, lon = rng.uniform(-60, 60), gens.rand_lon(rng)
+        d = gens.rand_date(rng, wide=False)
+        z = zones.rand_zone(rng, d)
+        which = rng.choice(["moonrise", "moonset"])
+        try:
+            r = _c14_one(lat, lon, d, z, which)
+        except Exception as exc:  # noqa: BLE001
+            r = "raised %r" % (exc,)
+        if r:
+            return {"clause": r, "latitude": lat, "longitude": lon, "date": d.isoformat(),
+                    "zone": z.describe(), "which": which}
+    return None
+
+
+def replay_C14(fi):
+    return _c14_one(fi["latitude"], fi["longitude"], datetime.date.fromisoformat(fi["date"]),
+                    _zone_from_descr(fi["zone"]), fi["which"]) is None
